@@ -74,8 +74,8 @@ func c17r4(c *Ctx) {
 		}
 		m := statusLk.X
 		var stale *c17Stale
-		for _, st := range c17StaleCalls(f) {
-			if p.sameValue(st.N.Call.Args[0], m) {
+		for _, st := range p.c17StaleCalls(f) {
+			if p.sameValue(st.Map, m) {
 				s := st
 				stale = &s
 			}
@@ -138,8 +138,8 @@ func c17r4(c *Ctx) {
 			}
 			if stale == nil {
 				pr = append(pr, "no observedGeneration test of the probed condition")
-			} else if !p.mustPrecede(rc.Ret, func(in ssa.Instruction) bool { return in == ssa.Instruction(stale.N) }) ||
-				!p.c17PrecededSinceLoopEntry(rc.Ret, stale.N) {
+			} else if !p.mustPrecede(rc.Ret, func(in ssa.Instruction) bool { return in == ssa.Instruction(stale.Site) }) ||
+				!p.c17PrecededSinceLoopEntry(rc.Ret, stale.Site) {
 				pr = append(pr, "true at "+at+" can be reached without the observedGeneration test of this condition having run")
 			}
 		}
